@@ -182,6 +182,11 @@ fn gen_body(rng: &mut Rng, max: usize) -> Vec<u8> {
 }
 
 fn gen_server(rng: &mut Rng) -> String {
+    if rng.chance(1, 12) {
+        // long identities: a head of several hundred bytes (nothing may assume a small head)
+        let n = *rng.pick(&[60usize, 75, 76, 100, 200, 255, 256, 257, 300, 1000, 5000]);
+        return (0..n).map(|i| (b'a' + (i % 26) as u8) as char).collect();
+    }
     match rng.below(5) {
         0 => String::new(),
         1 => "Firecracker API".to_string(),
@@ -204,7 +209,7 @@ pub fn gen_recipe(rng: &mut Rng, max_ops: usize, max_body: usize) -> Recipe {
             3 => BOp::SetEncoding,
             4 => BOp::SetServer(gen_server(rng)),
             5 => {
-                let k = rng.below(4);
+                let k = if rng.chance(1, 10) { rng.range(10, 80) } else { rng.below(4) };
                 BOp::SetAllow((0..k).map(|_| rng.below(3) as u8).collect())
             }
             6 => BOp::AllowMethod(rng.below(3) as u8),
